@@ -236,7 +236,7 @@ def _getStepAndCycleLengths(cs):
                 for length in cycleLengthsModifiedByAvailability
             ]
             if cs["burnSteps"] not in [0, None]
-            else [[]]
+            else [[] for _ in cycleLengthsModifiedByAvailability]
         )
 
     return stepLengths, cycleLengths
